@@ -10,8 +10,11 @@ TARGETS = ['PyIpmi.Props.C01', 'drv_codec']
 LEVEL = 'proof'
 RULE = ('for every class of the live registry: Fits assignments (all-zero, all-max, per-field top bit, '
         'alternating maxima of adjacent bit-field members / fields, every prefix-closed optional pattern, '
-        'boundary and seeded random values, variable lengths from the length field) are set on the real object '
-        'and sent to the Lean model; compared: encoded bytes, decoded values, re-encoded bytes.  A case is '
+        'boundary and seeded random values, variable lengths from the length field; and every field in turn at the '
+        'boundary patterns of its width - 00.., FF.., 80 00.., 00..80, 7F FF.., FF..7F, 01 00.., 00..01, FE FF.., FF..FE - '
+        'with every optional tail present, the other fields all-zero / all-ones) are set on the real object '
+        'and sent to the Lean model; compared: encoded bytes, decoded values, re-encoded bytes; the real bytes are also '
+        'judged against an encoder written from the layout alone (codec_common.encode_layout).  A case is '
         'distinct by (class, assignment) and non-trivial when the class has at least one field.  Histories on ONE '
         'message object: every generated assignment is also put on a long-lived instance of its class (re-assigned '
         'field by field, encoded, the bytes decoded back into that same instance; instance renewed every 6 cases); '
@@ -33,6 +36,9 @@ RULE = ('for every class of the live registry: Fits assignments (all-zero, all-m
 ASSUMPTIONS = [
     'model of msgs/message.py + utils.ByteBuffer is hand-written (lean/PyIpmi/Model/Codec.lean) and tied by this correspondence run',
     'layouts are regenerated from the live registry each run (Gen/Registry.lean); field classes whose encode/decode/create differ from the known base classes abort generation',
+    'when generation aborts, the layouts are read structurally (base class + declared length, '
+    'codec_common.structural_snapshot) and the real codec is still judged on all generated assignments against the '
+    'round-trip law and the layout-derived wire format; only the model comparison is dropped',
     'round-trip theorem requires completion_code = 0 (a non-OK code stops decoding by design, see C02.cc_stops); for '
     'codes 1..255 the weaker nonok_cc_encoded_and_stops is proved and run (code encoded first, decoding stops at it)',
     'the model is a function of the field values only (a message object has no other state): histories on one real '
